@@ -2089,7 +2089,7 @@ class FuncInfo(ValueFunc):
         return ["obj"]
 
     def execute(self, args, environment, pos):
-        return ValueString(args.get("obj").info)
+        return ValueString(getattr(args.get("obj"), "info", ""))
 
 
 class FuncInsertAt(ValueFunc):
